@@ -209,3 +209,23 @@ Theorem C01_calls_go_result_independent_of_fuel : forall P f args n m v w,
   cgo_call n P f args = Some v -> cgo_call m P f args = Some w -> v = w.
 Proof. exact cgo_call_fuel_irrelevant. Qed.
 Print Assumptions C01_calls_go_result_independent_of_fuel.
+
+(* ... and composed with the model of goose's emission order (C04, Tr/Decls.v):
+   for a package given in SOURCE order whose calls name functions of the
+   package, whose functions translate on their own and whose call graph has no
+   cycle other than self-calls, the definitions in the order goose emits them
+   preserve meaning *)
+From GV Require Import Tr.Decls Tr.DeclsProofs Tr.MiniGoCOrder.
+
+Theorem C01_calls_in_gooses_emission_order : forall P rk order,
+  NoDup (map cf_name P) ->
+  (forall fn g, In fn P -> In g (callees_b (cf_body fn)) -> exists gn, In gn P /\ cf_name gn = g) ->
+  (forall fn, In fn P -> exists T0 v, trc_func T0 fn = Some v) ->
+  acyclic (decls_of P) rk -> emit_order (decls_of P) = Some order ->
+  exists vs, trc_prog (pick P order) = Some vs /\
+    Forall2 (fun fn F => forall n args v s,
+               length args = length (cf_params fn) ->
+               cgo_body n (pick P order) (rev (combine (cf_params fn) args)) (cf_body fn) = Some v ->
+               exists m, eval m (call_expr F args) s = RVal v s) (pick P order) vs.
+Proof. exact goose_order_preserves_meaning. Qed.
+Print Assumptions C01_calls_in_gooses_emission_order.
